@@ -182,6 +182,16 @@ def check(case):
     ok, Sus = res.lib("call", S, jnp.asarray(us), key=key)
     if ok:
         res.claim("translation", float(np.max(np.abs(np.asarray(Sus) - np.roll(Su, shift, axis=ax)))), tol, key=key + ":translation")
+    if is_forced(spec):
+        # every invariant direction of the forcing on its own (shift by one and by a drawn amount)
+        for axis_ in range(D):
+            if axis_ == 1:
+                continue
+            for sh_ in (1, (case["shift"][axis_] % N) or 2):
+                us1 = np.roll(u, sh_, axis=axis_ + 1)
+                ok, Sus1 = res.lib("call", S, jnp.asarray(us1), key=key)
+                if ok:
+                    res.claim("translation_along_invariant_axis", float(np.max(np.abs(np.asarray(Sus1) - np.roll(Su, sh_, axis=axis_ + 1)))), tol, key=key + ":translation:axis%d" % axis_)
     nt_shift = any(s % N for s in shift)
     res.nontrivial = bool(nt_shift and moved)
 
